@@ -23,6 +23,9 @@ INLINE_STD = re.compile(r"^(?:[\w:<>,&* ]+? )?std::(exchange|__exchange|move|for
 INLINE = re.compile(r"^(?:auto |void |decltype\(auto\) )?boost::multi::(?:detail::array_allocator|array_types|static_array|array_ref|array|subarray|"
                     r"const_subarray|move_subarray|elements_range_t)<")
 
+# non-const accessors of the value layer that hand out a reference into the object (one GEP): followed, so that a write through the reference is seen
+INLINE_ACCESSOR = re.compile(r"boost::multi::layout_t<[^()]*>::(nelems|stride|offset|sub)\(\) &$")
+
 INLINE_FREE = re.compile(r"^(?:[\w:<>,&* ]+? )?boost::multi::(?:\w+|operator[=!<>~]=?)\((?:boost::multi::)?(array|static_array|array_ref|subarray|const_subarray|move_subarray)<")
 
 PRIMS = [
@@ -113,7 +116,7 @@ class Interp:
         if callee in self.mod.funcs:
             if self.opaque_extra and self.opaque_extra.search(dm):
                 return ("opaque", None, self.may_throw.get(callee, True), dm)
-            if INLINE.search(dm) or INLINE_STD.search(dm) or INLINE_FREE.search(dm) or container_member(dm) or (self.inline_extra and self.inline_extra.search(dm)):
+            if INLINE.search(dm) or INLINE_STD.search(dm) or INLINE_FREE.search(dm) or INLINE_ACCESSOR.search(dm) or container_member(dm) or (self.inline_extra and self.inline_extra.search(dm)):
                 return ("inline", None, self.may_throw.get(callee, True), dm)
             return ("opaque", None, self.may_throw.get(callee, True), dm)
         return ("extern", None, not self.mod.is_nounwind(callee), dm)
@@ -489,6 +492,11 @@ class Interp:
         for x, y in ((a, b), (b, a)):
             if is_ptr(x) and x[1][0] in ("param", "alloca", "global") and y == ("c", 0) and pred in ("eq", "ne"):
                 return ("c", 1 if pred == "ne" else 0)
+        # distinct objects have distinct addresses: a local (alloca) of the function under analysis never coincides with an object of the caller
+        # (parameter region) or with another local
+        if pred in ("eq", "ne") and is_ptr(a) and is_ptr(b) and a[1] != b[1] and "alloca" in (a[1][0], b[1][0]) and a[1][0] in ("param", "alloca", "global") \
+                and b[1][0] in ("param", "alloca", "global") and a[2] == 0 and b[2] == 0:
+            return ("c", 1 if pred == "ne" else 0)
         if a == b and pred in ("eq", "sle", "sge", "ule", "uge"):
             return ("c", 1)
         if a == b and pred in ("ne", "slt", "sgt", "ult", "ugt"):
